@@ -373,11 +373,14 @@ func (p *inlineParser) parse() {
 				i += n
 				break
 			}
+			// (a code span that spans lines inside an image description: how its line ending shows in alt is, like the rest of
+			// alt rendering, only recommended - such an image is declined)
+			multiline := strings.Contains(s[i+n:closeAt], "\n")
 			content := strings.ReplaceAll(s[i+n:closeAt], "\n", " ")
 			if len(content) >= 2 && content[0] == ' ' && content[len(content)-1] == ' ' && strings.Trim(content, " ") != "" {
 				content = content[1 : len(content)-1]
 			}
-			p.atom("<code>"+escHTMLText(content)+"</code>", content, false)
+			p.atom("<code>"+escHTMLText(content)+"</code>", content, multiline)
 			i = closeAt + n
 		case '<':
 			if m := reAutoURI.FindStringSubmatch(s[i:]); m != nil {
